@@ -93,6 +93,11 @@ impl<T: Clone> Stack<T> {
         self.cache.len()
     }
 
+    /// Number of snapshots that have been taken and neither cleared nor restored yet.
+    pub(crate) fn snapshots(&self) -> usize {
+        self.lengths.len()
+    }
+
     /// Takes a snapshot of the current `Stack`.
     pub fn snapshot(&mut self) {
         self.lengths.push((self.cache.len(), self.cache.len()))
